@@ -38,6 +38,10 @@ func subscribesSync(p *Prog, f *FuncInfo, depth int) bool {
 		if call, ok := m.(*ast.CallExpr); ok {
 			if isTracerMethod(in, call, "Subscribe") || isTracerMethod(in, call, "SubscribeChannel") {
 				found = true
+			} else if fn := callee(in, call); fn != nil && depth < 1 {
+				if cf := p.byObj[fn]; cf != nil && cf != f && cf.Pkg.PkgPath == pathBpmn && !isStartTrigger(fn) && subscribesSync(p, cf, depth+1) {
+					found = true
+				}
 			}
 		}
 		return !found
@@ -95,6 +99,11 @@ func ruleR11(c *Ctx) {
 				}
 				continue
 			}
+			if ss, ok := n.(*ast.SendStmt); ok && isMailboxChan(in.TypeOf(ss.Chan)) {
+				if r := f.Root(); r.Obj != nil && r.Obj.Name() == "NextAction" && recvNamed(r.Obj) != nil && recvNamed(r.Obj).Obj().Name() == "subProcess" {
+					triggers = append(triggers, ev{pt, ss, true, "post of the activation request to the sub-process loop (which starts the inner start events)"})
+				}
+			}
 			for _, call := range callsIn(n) {
 				fn := callee(in, call)
 				if isStartTrigger(fn) {
@@ -111,11 +120,24 @@ func ruleR11(c *Ctx) {
 		}
 		for _, t := range triggers {
 			for _, w := range watches {
-				if !(g.Dominates(t.pt, w.pt) || g.Dominates(w.pt, t.pt)) {
+				// a watch made under a first-activation guard (CompareAndSwap / sync.Once) is treated as
+				// located at the guard: it was made, once, before anything after the guard runs
+				wpt := w.pt
+				if underCASGuard(p, f, w.n) {
+					for cur := p.Parent(w.n); cur != nil; cur = p.Parent(cur) {
+						if ifs, ok := cur.(*ast.IfStmt); ok && w.n.Pos() >= ifs.Body.Pos() && w.n.End() <= ifs.Body.End() {
+							if cpt, ok := g.PointOf(ifs.Cond); ok {
+								wpt = cpt
+							}
+							break
+						}
+					}
+				}
+				if !(g.Dominates(t.pt, wpt) || g.Dominates(wpt, t.pt)) {
 					continue
 				}
-				ok := w.sync && g.Dominates(w.pt, t.pt) && w.pt != t.pt
-				wit := fmt.Sprintf("watch %q at %s; trigger %s at %s; watch is synchronous=%v and precedes the trigger=%v", w.label, p.Pos(w.n.Pos()), t.label, p.Pos(t.n.Pos()), w.sync, g.Dominates(w.pt, t.pt) && w.pt != t.pt)
+				ok := w.sync && g.Dominates(wpt, t.pt) && wpt != t.pt
+				wit := fmt.Sprintf("watch %q at %s; trigger %s at %s; watch is synchronous=%v and precedes the trigger=%v", w.label, p.Pos(w.n.Pos()), t.label, p.Pos(t.n.Pos()), w.sync, g.Dominates(wpt, t.pt) && wpt != t.pt)
 				c.Check(ok, f, t.n, "trigger "+t.label+" vs watch",
 					"the subscription that watches an instance must be established, in the caller's own goroutine, before the call that lets the instance emit its first trace; otherwise the watcher can miss the start/cease traces and never finish", wit)
 			}
@@ -186,7 +208,7 @@ func ruleR12(c *Ctx) {
 			in := info(f)
 			g := p.Graph(f)
 			for _, pt := range g.AllPoints() {
-				if _, ok := nodeSendsTrace(in, pt.Node(), "CeaseFlowTrace"); ok {
+				if _, ok := nodeSendsTraceDirect(in, pt.Node(), "CeaseFlowTrace"); ok {
 					sends = append(sends, site{f, pt})
 				}
 			}
